@@ -1,6 +1,6 @@
 (* Export.v - monomorphic entry points used by the OCaml driver (extract/driver.ml). *)
 From stdpp Require Import gmap.
-From IRC Require Import Str Wild Glob Mask Parse Reply State Handlers Step Config Keepalive.
+From IRC Require Import Str Wild Glob Mask Parse Reply State Handlers Step Config Keepalive Frame.
 Open Scope N_scope.
 
 Definition users_l (s : shared) : list (str * user) := map_to_list (users s).
@@ -30,3 +30,4 @@ Definition cmd_error_reply_x := cmd_error_reply.
 Definition config_accept_x := config_accept.
 Definition valid_hash_x := valid_hash.
 Definition ka_run_x := ka_run.
+Definition feed_x := feed.
